@@ -145,6 +145,7 @@ var templateProps = map[string][]string{
 	"TestGovcReplayJoin":              {"C05"},
 	"TestGovcReplayKeyID":             {"C16"},
 	"TestGovcReplayResetLeak":         {"C13"},
+	"TestGovcReplaySetOps":            {"C03", "C06", "C10"},
 	"TestGovcReplaySharedCapacity":    {"C08", "C19"},
 	"TestGovcReplayShortSecret":       {"C10"},
 	"TestGovcReplaySiblings":          {"C08", "C19"},
